@@ -281,7 +281,7 @@ func copyNodes(ns []*Node) []*Node {
 }
 
 func copyQuery(q *Query) *Query {
-	c := &Query{Name: q.Name, ID: q.ID, Vars: q.Vars, Body: copyNodes(q.Body)}
+	c := &Query{Name: q.Name, ID: q.ID, Vars: q.Vars, Defaults: q.Defaults, Body: copyNodes(q.Body)}
 	for _, f := range q.Frags {
 		c.Frags = append(c.Frags, &FragDef{Name: f.Name, On: f.On, ID: f.ID, Body: copyNodes(f.Body)})
 	}
